@@ -255,7 +255,7 @@ def main():
     global PROG
     tier = C.tier()
     rep = H.Report(PROP, tier)
-    K = 5 if tier == 'quick' else 6
+    K = 5 if tier == 'quick' else 7
     prog = PROG = H.load_program(['watchdog'], decl_crates=('watchdog', 'interface'))
     rep.cov['mir'] = dict(prog.info)
     rep.cov['bounds'] = dict(explorer_results='every success/failure pattern of up to %d results' % K, heights='symbolic in [1000, 2^40)',
